@@ -9,6 +9,7 @@ open C04AsmModel
 open C04AllocModel
 open C04MfraModel
 open C04TreeModel
+open C04TreeXModel
 open C04XrefModel
 open C04InfoModel
 
@@ -193,7 +194,7 @@ let () =
         if m = obs then Printf.printf "OK %s\n" id else Printf.printf "MISMATCH %s reader model=%s\n" id m
       | [("B" | "G") as knd; id; hex; o1; o2] ->
         let bs = bytes_of_hex hex in
-        let std_leaves = if knd = "G" then tbl_leaves else std_leaves in
+        let std_leaves = if knd = "G" then tblx_leaves else std_leaves in
         let m1 =
           match box_r std_leaves bs with
           | (Ok BEof, _) -> "eof"
